@@ -34,6 +34,9 @@ class Shape:
         self.counts: Dict[str, bool] = {}      # decode: var -> used?
         self.locals: Dict[str, ast.AST] = {}
         self.forwarded_lookup: List[Tuple[ast.Call, bool]] = []
+        self.closures: Dict[str, ast.FunctionDef] = {}
+        self.alternatives: Dict[str, List[ast.AST]] = {}
+        self._active: List[str] = []
         ps = f.param_names()
         self.stream = ps[1] if (f.is_classmethod or f.self_name) and len(ps) > 1 else ps[0]
         if f.is_staticmethod:
@@ -68,6 +71,15 @@ class Shape:
     def _stmt(self, st: ast.stmt) -> List[Event]:
         if isinstance(st, ast.Expr) and isinstance(st.value, ast.Constant):
             return []
+        if isinstance(st, ast.FunctionDef):
+            # a local function: abstracted where it is called with the stream
+            self.closures[st.name] = st
+            return []
+        if isinstance(st, ast.While):
+            body = self._block(st.body)
+            if self._expr(st.test):
+                raise ShapeError("stream operation in a loop header")
+            return [("loop", "other", unparse(st.test)[:40], tuple(body))] if body else []
         if isinstance(st, ast.If):
             ev = self._expr(st.test)
             if self._ends_in_raise(st.body) and not st.orelse:
@@ -106,7 +118,12 @@ class Shape:
             tg = st.targets[0] if isinstance(st, ast.Assign) else st.target
             self._bind_types(tg, val)
             ev = self._expr(val)
+            if not isinstance(tg, (ast.Name, ast.Tuple, ast.List)):
+                ev = ev + self._expr(tg)        # ``m[decode(k)] = decode(v)``: the value first
             if isinstance(tg, ast.Name):
+                if tg.id in self.locals and ast.dump(self.locals[tg.id]) != ast.dump(val):
+                    # bound to different things on different paths (try / except, if / else)
+                    self.alternatives.setdefault(tg.id, [self.locals[tg.id]]).append(val)
                 self.locals[tg.id] = val
                 if self.direction == "decode" and ev and ev[-1][0] == "sub" \
                         and ev[-1][1] == "Uint64Codec" and self._is_decode_of(val, "Uint64Codec"):
@@ -236,6 +253,34 @@ class Shape:
         """events for a call that *is* (or directly wraps) a stream operation;
         None if this call is not a wrapper we know (children are then visited)."""
         fn = c.func
+        if isinstance(fn, ast.Name) and fn.id in self.closures and fn.id not in self._active:
+            d = self.closures[fn.id]
+            params = [a.arg for a in d.args.args]
+            pos = [i for i, a in enumerate(c.args) if self._is_stream(a)]
+            captures = any(isinstance(n, ast.Name) and n.id == self.stream for n in ast.walk(d)) \
+                and self.stream not in params
+            if not pos and captures:
+                self._active.append(fn.id)
+                try:
+                    pre0: List[Event] = []
+                    for a in c.args:
+                        self._post(a, pre0)
+                    return pre0 + self._block(d.body)
+                finally:
+                    self._active.pop()
+            if pos and pos[0] < len(params):
+                saved = self.stream
+                self.stream = params[pos[0]]
+                self._active.append(fn.id)
+                try:
+                    pre: List[Event] = []
+                    for i, a in enumerate(c.args):
+                        if i != pos[0]:
+                            self._post(a, pre)
+                    return pre + self._block(d.body)
+                finally:
+                    self.stream = saved
+                    self._active.pop()
         if isinstance(fn, ast.Name) and isinstance(self.locals.get(fn.id), ast.Attribute):
             fn = self.locals[fn.id]       # ``enc = serialization._encode_tree``
         # serialization._encode_tree(out, v, T) / _decode_tree(raw, T, g)
@@ -356,6 +401,10 @@ class Shape:
 
     def _written(self, b: ast.AST) -> Event:
         orig = b
+        if isinstance(b, ast.Name) and b.id in self.alternatives:
+            kinds = sorted({str(self._written(v)[1:3]) for v in self.alternatives[b.id]})
+            if len(kinds) > 1:
+                return ("raw", "bytes:" + b.id, "one-of:" + " | ".join(kinds))
         if isinstance(b, ast.Name) and b.id in self.locals:
             b = self.locals[b.id]
         if isinstance(b, ast.Call):
